@@ -3,12 +3,15 @@ package main
 import (
 	"errors"
 	"fmt"
+	"os"
+	"path/filepath"
 	"runtime"
 	"sort"
 	"strings"
 	"sync"
 	"time"
 
+	"github.com/hyperledger/aries-framework-go/component/storage/leveldb"
 	"github.com/hyperledger/aries-framework-go/component/storageutil/batchedstore"
 	"github.com/hyperledger/aries-framework-go/component/storageutil/cachedstore"
 	"github.com/hyperledger/aries-framework-go/component/storageutil/formattedstore"
@@ -229,6 +232,19 @@ func (l *lockedFormatter) Deformat(key string, value []byte, tags ...spi.Tag) (s
 
 func (l *lockedFormatter) UsesDeterministicKeyFormatting() bool { return l.inner.UsesDeterministicKeyFormatting() }
 
+// ldbProvider removes the scratch directory when the provider is closed.
+type ldbProvider struct {
+	*leveldb.Provider
+	dir string
+}
+
+func (l *ldbProvider) Close() error {
+	err := l.Provider.Close()
+	_ = os.RemoveAll(l.dir)
+
+	return err
+}
+
 // ---------- the real stack ----------
 
 // Wrap is one wrapper layer.
@@ -240,6 +256,8 @@ type Wrap struct {
 
 // Stack is the in-memory provider with wrappers, innermost first.
 type Stack struct {
+	// Base: "" = the in-memory provider, "leveldb" = component/storage/leveldb in a scratch directory
+	Base  string `json:"base,omitempty"`
 	Wraps []Wrap `json:"wraps,omitempty"`
 	// Raw: the bare in-memory provider without the harness's yielding wrapper (provider-level component: the store
 	// objects GetOpenStores returns must be the handles OpenStore returned)
@@ -248,6 +266,9 @@ type Stack struct {
 
 func (s Stack) String() string {
 	n := "mem"
+	if s.Base != "" {
+		n = s.Base
+	}
 
 	for _, w := range s.Wraps {
 		switch w.Kind {
@@ -326,10 +347,26 @@ func newStoreInst(st Stack, c *ctl) (*storeInst, error) {
 
 // buildProvider builds the stack of providers (no store is opened).
 func buildProvider(st Stack, c *ctl) (spi.Provider, error) {
-	var p spi.Provider = &yProvider{inner: mem.NewProvider(), c: c}
+	var base spi.Provider = mem.NewProvider()
+
+	if st.Base == "leveldb" {
+		root := os.Getenv("VERIF_RUN")
+		if root == "" {
+			root = os.TempDir()
+		}
+
+		d, err := os.MkdirTemp(root, "c13-ldb-")
+		if err != nil {
+			return nil, err
+		}
+
+		base = &ldbProvider{Provider: leveldb.NewProvider(filepath.Join(d, "db")), dir: d}
+	}
+
+	var p spi.Provider = &yProvider{inner: base, c: c}
 
 	if len(st.Wraps) == 0 && st.Raw {
-		p = mem.NewProvider()
+		p = base
 	}
 
 	for _, wr := range st.Wraps {
